@@ -24,6 +24,13 @@ import rtlfoot
 
 def ff_perms(n, rng, limit):
   if n <= 1: return [None]
+  if n > 6:
+    # never materialise n! permutations: identity, reverse and random shuffles
+    out = [tuple(range(n)), tuple(range(n))[::-1]]
+    while len(out) < limit:
+      p = list(range(n)); rng.shuffle(p)
+      if tuple(p) not in out: out.append(tuple(p))
+    return out
   ps = list(itertools.permutations(range(n)))
   if len(ps) > limit: ps = [ps[0], ps[-1]] + rng.sample(ps[1:-1], limit - 2)
   return ps
@@ -70,13 +77,24 @@ def check_design(ctx, g, cls, k, cycles, nsimple, nforced, ffl, coq_cases, coq_m
   # the other driving protocol (inputs written, sim_tick only) with line tracing switched on: the pass groups must still
   # agree with each other and with the untraced simple schedule
   tbase = sc.simulate_ticks(sc.build(cls, 'simple', seed=0), g, seed, cycles)
-  for sch in ('simple', 'dynamic', 'unroll', 'heuristic', 'mamba'):
+  for sch in (('simple', 'dynamic', 'unroll', 'heuristic', 'mamba') if ctx.tier != 'quick' else rng.sample(['simple', 'dynamic', 'unroll', 'heuristic', 'mamba'], 2)):
     tr = sc.simulate_ticks(sc.build(cls, sch, seed=0, trace=True), g, seed, cycles)
     ctx.count((g.name, sch, 'tick-only-linetrace'), True, cls='tick-only:' + sch)
     d = sc.first_diff(tbase, tr)
     if d:
       ctx.violation(f'C01:schedule-dependent:{g.name}:{sch}:tick-only-linetrace', f'design {g.name}: driven by sim_tick alone with line tracing on, {sch} differs from simple (no tracing) after tick {d[0]}: {d[2]}',
                     {'design_source': src, 'scheduler': sch, 'protocol': 'inputs written, sim_tick() only, print_line_trace=True', 'input_seed': seed, 'tick': d[0], 'signals': d[2]})
+  # active-low reset: every pass group given reset_active_high=False must hold reset at 0 during sim_reset and release it to 1;
+  # the designs' `if s.reset:` registers make the polarity visible
+  if 'ff-reset-idiom' in g.features:
+    lbase = sc.simulate(sc.build(cls, 'simple', seed=0, reset_high=False), g, seed, cycles)
+    for sch in (('dynamic', 'unroll', 'heuristic', 'mamba') if ctx.tier != 'quick' else rng.sample(['dynamic', 'unroll', 'heuristic', 'mamba'], 2)):
+      tr = sc.simulate(sc.build(cls, sch, seed=0, reset_high=False), g, seed, cycles)
+      ctx.count((g.name, sch, 'active-low-reset'), True, cls='active-low:' + sch)
+      d = sc.first_diff(lbase, tr)
+      if d:
+        ctx.violation(f'C01:schedule-dependent:{g.name}:{sch}:active-low-reset', f'design {g.name} with reset_active_high=False: {sch} differs from simple at step {d[0]}: {d[2]}',
+                      {'design_source': src, 'scheduler': sch, 'reset_active_high': False, 'input_seed': seed, 'step': d[0], 'signals': d[2]})
   # EVERY linear extension of pymtl3's constraint graph is a legal schedule (SimpleSchedulePass picks one at random), so a
   # writer/reader pair that shares a bit (declared footprints mapped to bit intervals here, plus reads/writes discovered
   # by running the blocks) but that the graph leaves unordered gets its own witness: the linear extension that runs
@@ -211,7 +229,7 @@ def sc_live(top, sig):
 def run(ctx):
   setup_impl_path()
   quick = ctx.tier == 'quick'
-  ndes = 150 if quick else 1500
+  ndes = 130 if quick else 1500
   coq_cases, coq_meta = [], []
   distinct_orders = 0
   for k in range(ndes):
